@@ -247,6 +247,12 @@ RATE_LIMITS = {     # calibration: VERIF_SEED 1..12 quick, 1..3 thorough on the 
     'padded_gap_lost': ('core', {'quick': 0.018, 'thorough': 0.018}, 3),                 # 0.006 / 0.003
     'large_graph_overlap': ('core', {'quick': 0.0045, 'thorough': 0.0045}, 3),           # 0.0015 / 0.0007
 }
+# the whole_tree family (non-square nodes up to aspect 12, every growth direction) has rates of its own: a tall node in a rank of a N/S tree
+# or a wide one in an E/W tree is a rank collision by construction.  Calibration as above (VERIF_SEED 1..12 quick, 1..3 thorough).
+RATE_LIMITS_WTREE = {
+    'tree_centre_child_alignment': ('wtree', {'quick': 0.40, 'thorough': 0.40}, 3),
+    'tree_rank_collision': ('wtree', {'quick': 0.50, 'thorough': 0.50}, 3),
+}
 GROWTH = {0: (1, 1.0), 1: (2, 1.0), 2: (1, -1.0), 3: (2, -1.0)}     # HolaOpts::defaultTreeGrowthDir as the harness numbers it -> (index into an A N tuple, sign)
 GENERIC_ASSERT_SITES = {'exception:assert:faces.cpp:u_!=_nullptr'}     # sites named in the text of the catch-all line `exception:assert`
 CLUSTER_DESTRESS = ('P_nbr_destress', 'P_near_alignments')          # P->destress(colaOpts) with node clusters, hola.cpp:289 / :301
@@ -318,6 +324,7 @@ def tree_ranks(case, d, iel):
     exactly k*rankSep (= k*IEL, treeLayoutScalar_rankSep = 1) from the root along the growth axis.  Returns
     (rank dict, parent dict, children dict, axis index, transverse index) or None when the drawing is not ranked so."""
     k, sg = GROWTH[int(case.get('opts', {}).get('defaultTreeGrowthDir', 1)) & 3]
+    iel = iel * float(case.get('opts', {}).get('treeLayoutScalar_rankSep', 1.0))        # the rank pitch rankSep = treeLayoutScalar_rankSep*IEL
     A = {n[0]: n for n in d['A']['N']}
     g = {i: sg * float(A[i][k]) for i in A}
     g0 = min(g.values())
@@ -354,7 +361,7 @@ def classify_tree(case, r, info):
     iel, pad = v['iel'], v['pad']
     tr = tree_ranks(case, d, iel)
     if tr is None:
-        return None, 'the returned positions are not in ranks k*IEL along the growth axis'
+        return None, 'the returned positions are not in ranks k*rankSep (treeLayoutScalar_rankSep*IEL) along the growth axis'
     rank, parent, children, ax, tv = tr
     A = {n[0]: n for n in d['A']['N']}
     fps = set()
@@ -362,6 +369,33 @@ def classify_tree(case, r, info):
     def padded_overlap(a, b):
         ba, bb = fbox(A[a]), fbox(A[b])
         return min(ba[1], bb[1]) - max(ba[0], bb[0]) + 2 * pad > 1e-9 and min(ba[3], bb[3]) - max(ba[2], bb[2]) + 2 * pad > 1e-9
+
+    # symmetricLayout lays out the PADDED nodes and keeps nodeSep between neighbouring subtrees of a rank: two nodes of the same rank whose
+    # padded boxes overlap are not produced by the mechanism of either tree finding (both leave the spacing inside a rank alone), and they
+    # make every other symptom of the drawing (routes through nodes, libavoid's straight fallback) ambiguous: nothing is absorbed then
+    by_rank = collections.defaultdict(list)
+    for i in A:
+        by_rank[rank[i]].append(i)
+    for rk, members in sorted(by_rank.items()):
+        for x in range(len(members)):
+            for y in range(x + 1, len(members)):
+                if padded_overlap(members[x], members[y]):
+                    return None, ('nodes %d and %d of the same rank %d are closer than the node padding allows (their padded boxes overlap); symmetricLayout '
+                                  'separates the padded subtrees of a rank by nodeSep' % (members[x], members[y], rk))
+    def channel_blocked(s, t):
+        if abs(rank[s] - rank[t]) != 1:
+            return False
+        lo, hi = sorted((float(A[s][tv]), float(A[t][tv])))
+        for q in A:
+            if q in (s, t) or rank[q] not in (rank[s], rank[t]):
+                continue
+            e = t if rank[q] == rank[s] else s                  # the end node in the OTHER rank
+            gq, ge = float(A[q][ax]), float(A[e][ax])
+            reach = (float(A[q][ax + 2]) + float(A[e][ax + 2])) / 2 + 2 * pad - abs(gq - ge)      # > 0: padded extents overlap along the growth axis
+            tq, wq = float(A[q][tv]), float(A[q][tv + 2]) / 2 + pad
+            if reach > 1e-9 and tq + wq > lo + 1e-9 and tq - wq < hi - 1e-9:
+                return True
+        return False
 
     for bs in info.get('bad_seps', []):
         a, b = bs['pair']
@@ -388,7 +422,7 @@ def classify_tree(case, r, info):
             # exactly IEL apart between centres whatever the node extents
             if dim != 'xy'[ax - 1] or abs(rank[a] - rank[b]) != 1:
                 return None, 'violated boundary separation %s is not a separation of neighbouring ranks along the growth axis' % bs['what']
-            if (float(A[a][ax + 2]) + float(A[b][ax + 2])) / 2 <= iel:
+            if (float(A[a][ax + 2]) + float(A[b][ax + 2])) / 2 <= iel * float(case.get('opts', {}).get('treeLayoutScalar_rankSep', 1.0)):
                 return None, 'violated rank separation %d-%d although the half extents fit into rankSep' % (a, b)
             fps.add('tree_rank_collision')
         else:
@@ -409,9 +443,13 @@ def classify_tree(case, r, info):
         end_collides = padded_overlap(s, t) or any(rank[q] != rank[e] and padded_overlap(q, e) for e in (s, t) for q in A if q not in (s, t))
         if len(rt) == 4 and diagonal_segments(rt):
             # libavoid's fallback, the straight line between the end points: it found no orthogonal route because the padded
-            # box of an end node collides with a padded box of another rank (what the line then crosses is incidental)
-            if not end_collides:
-                return None, 'route %d-%d is a straight diagonal but no padded box of another rank collides with its end nodes' % (s, t)
+            # box of an end node collides with a padded box of another rank (what the line then crosses is incidental), or
+            # (:channel_blocked) because a THIRD node of one of the two ranks is so long along the growth axis that its padded box
+            # reaches the level of the edge's end node in the other rank, and it stands transversely between the two end nodes:
+            # the channel between the two ranks, through which the connector must run, is closed
+            if not end_collides and not channel_blocked(s, t):
+                return None, ('route %d-%d is a straight diagonal but no padded box of another rank collides with its end nodes and no node of the two '
+                              'ranks closes the channel between them' % (s, t))
         else:
             if be['fails'] != 't':
                 return None, 'route %d-%d fails %s and is not the 2-point fallback' % (s, t, be['fails'])
@@ -680,6 +718,10 @@ def run(tier):
     cases.sort(key=lambda c: 0 if c['family'].startswith('corpus:seeded_demo') else 1)      # stable: the demo inputs of stored seeded changes first
     degen = [G.gen_case(rng.fork(), 'degenerate_start', min(maxn, 30)) for _ in range(n_degen)]
     cases += degen
+    # whole-graph trees under every growth direction with non-square nodes (own stream: the cases above are unchanged by it)
+    trng = C.SplitMix64(res.seed ^ 0xC14735)
+    n_wtree_cases = 224 if tier == 'quick' else 896
+    cases += [G.gen_tree_case(trng.fork(), k, 24 if tier == 'quick' else 40) for k in range(n_wtree_cases)]
     tmpdir = tempfile.mkdtemp(prefix='c14_', dir=os.path.join(C.BUILD))
     t1 = time.time()
     try:
@@ -696,7 +738,10 @@ def run(tier):
     excs = collections.Counter()
     known = collections.Counter()
     known_objs = collections.defaultdict(list)
-    n_checked = n_ok = n_nodes = n_edges = n_seps = n_segs = n_tree = n_core = n_chain = 0
+    n_checked = n_ok = n_nodes = n_edges = n_seps = n_segs = n_tree = n_core = n_chain = n_wtree = 0
+    known_w = collections.Counter()
+    known_w_objs = collections.defaultdict(list)
+    wt_cov = collections.Counter()
     distinct = set()
     samples = []
     new_viol = 0
@@ -740,7 +785,12 @@ def run(tier):
             continue
         d, v = r['dump'], r['verdict']
         n_checked += 1
-        if is_tree(d):
+        wt = case['family'] == 'whole_tree'
+        if wt:
+            n_wtree += 1
+            wt_cov['dir=%s size=%s' % ('ESWN'[int(o.get('defaultTreeGrowthDir', 1)) & 3], case.get('size_mode'))] += 1
+            wt_cov['dir=%s shape=%s' % ('ESWN'[int(o.get('defaultTreeGrowthDir', 1)) & 3], case.get('shape'))] += 1
+        elif is_tree(d):
             n_tree += 1
         else:
             n_core += 1
@@ -768,8 +818,8 @@ def run(tier):
         if fps and all(res.known_fingerprint(f) for f in fps):
             for f in fps:
                 res.violation(obj, fingerprint=f)
-                known[f] += 1
-                known_objs[f].append(obj)
+                (known_w if wt else known)[f] += 1
+                (known_w_objs if wt else known_objs)[f].append(obj)
         else:
             unknown = [f for f in (fps or []) if not res.known_fingerprint(f)]
             if unknown:
@@ -780,17 +830,18 @@ def run(tier):
 
     # ---- backstop only (the classifiers above are the predicates): a fingerprint that fires far more often than on the
     # unchanged tree is reported even if every single case satisfies its predicate
-    denom = {'tree': n_tree, 'core': n_core, 'chain': n_chain}
+    denom = {'tree': n_tree, 'core': n_core, 'chain': n_chain, 'wtree': n_wtree}
     rate_report = {}
-    for f, (dk, lim, slack) in sorted(RATE_LIMITS.items()):
+    for tag, f, (dk, lim, slack), kn, kobjs in ([('', f, x, known, known_objs) for f, x in sorted(RATE_LIMITS.items())] +
+                                                [('whole_tree:', f, x, known_w, known_w_objs) for f, x in sorted(RATE_LIMITS_WTREE.items())]):
         allowed = lim[tier if tier in lim else 'quick'] * denom[dk] + slack
-        rate_report[f] = {'hits': known[f], 'of': denom[dk], 'kind': dk, 'allowed': round(allowed, 1)}
-        if known[f] > allowed:
-            objs = known_objs[f]
+        rate_report[tag + f] = {'hits': kn[f], 'of': denom[dk], 'kind': dk, 'allowed': round(allowed, 1)}
+        if kn[f] > allowed:
+            objs = kobjs[f]
             last = objs[-1]
             res.violation({'what': 'known-finding rate exceeded: fingerprint %s fired on %d of %d %s drawings; the unchanged tree stays below %.1f '
-                                   '(about 3 x the largest rate seen over the calibration seeds + %d)' % (f, known[f], denom[dk], dk, allowed, slack),
-                           'fingerprint_rate': rate_report[f], 'harness_input': last['harness_input'], 'family': last['family'], 'options': last['options'],
+                                   '(about 3 x the largest rate seen over the calibration seeds + %d)' % (tag + f, kn[f], denom[dk], dk, allowed, slack),
+                           'fingerprint_rate': rate_report[tag + f], 'harness_input': last['harness_input'], 'family': last['family'], 'options': last['options'],
                            'graph': last['graph'], 'diagnosis': last['diagnosis'],
                            'more_cases': [o['harness_input'] for o in objs[-6:-1]],
                            'replay': last['replay']})
@@ -828,6 +879,11 @@ def run(tier):
         'totals': {'nodes': n_nodes, 'edges': n_edges, 'route_segments': n_segs, 'separation_pairs': n_seps},
         'families': dict(fam), 'option_combinations': dict(optc), 'exceptions': dict(excs),
         'known_finding_cases': dict(known), 'new_rejections': new_viol,
+        'whole_tree_family': {'drawings': n_wtree, 'known_finding_cases': dict(known_w), 'direction_x_sizemode_and_shape': dict(wt_cov),
+                              'what': 'pure trees (caterpillar, star, binary, path, broom, spider, recursive, double star; <= 24 / 40 nodes) laid out by the whole-tree '
+                                      'branch of doHOLA under defaultTreeGrowthDir E, S, W, N in turn; node dimension distributions uniform tall / uniform wide / tall / wide / '
+                                      'mixed / square / one big (aspect ratio up to 12); options wholeTreeRouting, preferConvexTrees, treeLayoutScalar_nodeSep / _rankSep, '
+                                      'nodePaddingScalar, routingAbs_nudgingDistance, putUlcAtOrigin'},
         'tolerances': {k: str(TOLS[k]) for k in TOL_ORDER},
         'timing_s': {'build': round(build_s, 1), 'runs': round(run_s, 1), 'max_single_doHOLA': round(max(r['time'] for r in results), 2)}})
     n_exc = sum(excs.values())
